@@ -122,8 +122,9 @@ func (s *space) vectors(thorough bool, wsel []uint) []vec {
 }
 
 type largeCase struct {
-	n  int
-	vi int
+	n    int
+	vi   int
+	kind int // 0: P_i list with scalar vector vi; 1: every point the identity (rotating representations); 2: ONE scalar object and ONE point object for all terms
 }
 
 func (s *space) large(c *mc.Ctx) {
@@ -237,8 +238,9 @@ func (s *space) large(c *mc.Ctx) {
 			vecsBy[n] = sel
 		}
 		for vi := range vecsBy[n] {
-			cases = append(cases, largeCase{n, vi})
+			cases = append(cases, largeCase{n, vi, 0})
 		}
+		cases = append(cases, largeCase{n, 10, 1}, largeCase{n, 10, 2}) // vector 10 = generic-unreduced (first element of it for kind 2)
 	}
 	c.Rep.Extra["large_sizes"] = sizes
 	vcount := map[string]int{}
@@ -247,28 +249,75 @@ func (s *space) large(c *mc.Ctx) {
 	}
 	c.Rep.Extra["large_vectors_per_size"] = vcount
 
+	// identity points as distinct objects in rotating representations (special kind 1)
+	idl := make([]*lpt, nmax)
+	for t := range idl {
+		idl[t] = &lpt{e: -1, rep: t % ptalph.NumReps, P: ptalph.Rep(c.Seed, ref.Identity(), t%ptalph.NumReps)}
+	}
+	const sharedIdx = 21 // special kind 2: P_21 = [L-1]B + T_5 (ristretto list: + T_2)
+
 	c.Par("msm-large", len(cases), func(w *mc.W, i int) {
 		lc := cases[i]
 		n, v := lc.n, vecsBy[lc.n][lc.vi]
-		cas := map[string]interface{}{"n": n, "scalar_vector": v.name, "points": "P_i=[m_i]B+T_(i mod 8), representation i mod 5"}
-		d := func(op string) func() string {
-			return func() string { return fmt.Sprintf("%s n=%d scalars=%s", op, n, v.name) }
+		name := v.name
+		want, scs, _ := expect(n, v, 1)
+		rwant, _, _ := expect(n, v, 2)
+		pl, rl := le[:n], lr[:n]
+		switch lc.kind {
+		case 1:
+			name = "generic-unreduced on identity points"
+			pl, rl = idl[:n], idl[:n]
+			want, rwant = ref.Identity(), ref.Identity()
+		case 2:
+			name = "ONE scalar object and ONE point object for all terms"
+			sv := v.f(0, n)
+			sc0 := ptalph.Sc(sv)
+			ns := new(big.Int).Mul(sv, big.NewInt(int64(n)))
+			scs = make([]*scalar.Scalar, n)
+			pl, rl = make([]*lpt, n), make([]*lpt, n)
+			for t := range scs {
+				scs[t], pl[t], rl[t] = sc0, le[sharedIdx], lr[sharedIdx]
+			}
+			mb := ptalph.BaseElem.Mul(ref.SMul(ns, ms[sharedIdx]))
+			tor := func(t int) ref.Point {
+				return ptalph.T[int(new(big.Int).Mod(new(big.Int).Mul(ns, big.NewInt(int64(t))), big.NewInt(8)).Int64())]
+			}
+			want, rwant = refgrp.Sum(mb, tor(sharedIdx%8)), refgrp.Sum(mb, tor(2*(sharedIdx%4)))
 		}
-		want, scs, unred := expect(n, v, 1)
-		_ = unred
+		cas := map[string]interface{}{"n": n, "scalar_vector": name, "points": "P_i=[m_i]B+T_(i mod 8), representation i mod 5"}
+		d := func(op string) func() string {
+			return func() string { return fmt.Sprintf("%s n=%d scalars=%s", op, n, name) }
+		}
 		lp := make([]*curve.EdwardsPoint, n)
 		for t := 0; t < n; t++ {
-			lp[t] = le[t].P
+			lp[t] = pl[t].P
+		}
+		// aliased(k): the receiver is a private copy of points[k], substituted at every position holding that object
+		aliased := func(src []*curve.EdwardsPoint, k int) (*curve.EdwardsPoint, []*curve.EdwardsPoint) {
+			r := cp(src[k])
+			l2 := make([]*curve.EdwardsPoint, len(src))
+			for t := range src {
+				l2[t] = src[t]
+				if src[t] == src[k] {
+					l2[t] = r
+				}
+			}
+			return r, l2
 		}
 		cl := func(r string) string { return fmt.Sprintf("msm-large/%s/n=%d", r, n) }
-		checkPt(w, "EdwardsPoint.MultiscalarMulVartime", func() *curve.EdwardsPoint { return nr().MultiscalarMulVartime(scs, lp) }, want, d("MultiscalarMulVartime"), cas)
+		in := objs(scs, lp)
+		unchanged(w, "EdwardsPoint.MultiscalarMulVartime", d("MultiscalarMulVartime"), cas, in, func() {
+			checkPt(w, "EdwardsPoint.MultiscalarMulVartime", func() *curve.EdwardsPoint { return nr().MultiscalarMulVartime(scs, lp) }, want, d("MultiscalarMulVartime"), cas)
+		})
 		w.Eval(cl("MultiscalarMulVartime"), true)
-		checkPt(w, "EdwardsPoint.MultiscalarMul", func() *curve.EdwardsPoint { return nr().MultiscalarMul(scs, lp) }, want, d("MultiscalarMul"), cas)
+		unchanged(w, "EdwardsPoint.MultiscalarMul", d("MultiscalarMul"), cas, in, func() {
+			checkPt(w, "EdwardsPoint.MultiscalarMul", func() *curve.EdwardsPoint { return nr().MultiscalarMul(scs, lp) }, want, d("MultiscalarMul"), cas)
+		})
 		w.Eval(cl("MultiscalarMul"), true)
-		lp2 := append([]*curve.EdwardsPoint{}, lp...)
-		r := cp(lp[n/2])
-		lp2[n/2] = r
+		r, lp2 := aliased(lp, n/2)
 		checkPt(w, "EdwardsPoint.MultiscalarMulVartime/alias", func() *curve.EdwardsPoint { return r.MultiscalarMulVartime(scs, lp2) }, want, d("p.MultiscalarMulVartime(.., p, ..)"), cas)
+		r, lp2 = aliased(lp, (i*7)%n)
+		checkPt(w, "EdwardsPoint.MultiscalarMul/alias", func() *curve.EdwardsPoint { return r.MultiscalarMul(scs, lp2) }, want, d("p.MultiscalarMul(.., p, ..)"), cas)
 		for _, sp := range splits(n) {
 			var ss, ds []*scalar.Scalar
 			var spn []*curve.ExpandedEdwardsPoint
@@ -277,27 +326,62 @@ func (s *space) large(c *mc.Ctx) {
 				for t := 0; t < n; t++ {
 					if sp[t] {
 						ss = append(ss, scs[t])
-						spn = append(spn, le[t].expanded())
+						spn = append(spn, pl[t].expanded())
 					} else {
 						ds = append(ds, scs[t])
 						dpn = append(dpn, lp[t])
 					}
 				}
 			})
-			checkPt(w, "EdwardsPoint.ExpandedMultiscalarMulVartime", func() *curve.EdwardsPoint { return nr().ExpandedMultiscalarMulVartime(ss, spn, ds, dpn) }, want,
-				d(fmt.Sprintf("ExpandedMultiscalarMulVartime(static=%d, dynamic=%d)", len(ss), len(ds))), cas)
+			what := fmt.Sprintf("ExpandedMultiscalarMulVartime(static=%d, dynamic=%d)", len(ss), len(ds))
+			in := objs(append(append([]*scalar.Scalar{}, ss...), ds...), dpn)
+			for _, x := range spn {
+				in = append(in, x)
+			}
+			unchanged(w, "EdwardsPoint.ExpandedMultiscalarMulVartime", d(what), cas, in, func() {
+				checkPt(w, "EdwardsPoint.ExpandedMultiscalarMulVartime", func() *curve.EdwardsPoint { return nr().ExpandedMultiscalarMulVartime(ss, spn, ds, dpn) }, want, d(what), cas)
+			})
 			w.Eval(cl(fmt.Sprintf("ExpandedMultiscalarMulVartime(static=%d)", len(ss))), true)
+			if len(dpn) > 0 { // receiver among the dynamic points (Straus and Pippenger sizes, both backends' code paths)
+				r, d2 := aliased(dpn, (i*5)%len(dpn))
+				checkPt(w, "EdwardsPoint.ExpandedMultiscalarMulVartime/alias", func() *curve.EdwardsPoint { return r.ExpandedMultiscalarMulVartime(ss, spn, ds, d2) }, want, d("p."+what+" with p among the dynamic points"), cas)
+			}
 		}
 		// ristretto wrappers on representatives in 2E
-		rwant, _, _ := expect(n, v, 2)
 		rpn := make([]*curve.RistrettoPoint, n)
 		for t := 0; t < n; t++ {
-			rpn[t] = rp(lr[t].P)
+			rpn[t] = rp(rl[t].P)
+			if t > 0 && rl[t] == rl[0] {
+				rpn[t] = rpn[0]
+			}
 		}
-		checkR(w, "RistrettoPoint.MultiscalarMulVartime", func() *curve.RistrettoPoint { return nrr().MultiscalarMulVartime(scs, rpn) }, rwant, d("ristretto MultiscalarMulVartime"), cas)
+		rin := []interface{}{}
+		for _, x := range scs {
+			rin = append(rin, x)
+		}
+		for _, x := range rpn {
+			rin = append(rin, x)
+		}
+		unchanged(w, "RistrettoPoint.MultiscalarMulVartime", d("ristretto MultiscalarMulVartime"), cas, rin, func() {
+			checkR(w, "RistrettoPoint.MultiscalarMulVartime", func() *curve.RistrettoPoint { return nrr().MultiscalarMulVartime(scs, rpn) }, rwant, d("ristretto MultiscalarMulVartime"), cas)
+		})
 		w.Eval(cl("ristretto.MultiscalarMulVartime"), true)
-		checkR(w, "RistrettoPoint.MultiscalarMul", func() *curve.RistrettoPoint { return nrr().MultiscalarMul(scs, rpn) }, rwant, d("ristretto MultiscalarMul"), cas)
+		unchanged(w, "RistrettoPoint.MultiscalarMul", d("ristretto MultiscalarMul"), cas, rin, func() {
+			checkR(w, "RistrettoPoint.MultiscalarMul", func() *curve.RistrettoPoint { return nrr().MultiscalarMul(scs, rpn) }, rwant, d("ristretto MultiscalarMul"), cas)
+		})
 		w.Eval(cl("ristretto.MultiscalarMul"), true)
+		{
+			k := (i * 3) % n
+			rr := curve.NewRistrettoPoint().Set(rpn[k])
+			l2 := make([]*curve.RistrettoPoint, n)
+			for t := range rpn {
+				l2[t] = rpn[t]
+				if rpn[t] == rpn[k] {
+					l2[t] = rr
+				}
+			}
+			checkR(w, "RistrettoPoint.MultiscalarMulVartime/alias", func() *curve.RistrettoPoint { return rr.MultiscalarMulVartime(scs, l2) }, rwant, d("ristretto p.MultiscalarMulVartime(.., p, ..)"), cas)
+		}
 		for _, sp := range splits(n)[:3] {
 			var ss, ds []*scalar.Scalar
 			var spn []*curve.ExpandedRistrettoPoint
@@ -306,7 +390,7 @@ func (s *space) large(c *mc.Ctx) {
 				for t := 0; t < n; t++ {
 					if sp[t] {
 						ss = append(ss, scs[t])
-						spn = append(spn, lr[t].rexpanded())
+						spn = append(spn, rl[t].rexpanded())
 					} else {
 						ds = append(ds, scs[t])
 						dpn = append(dpn, rpn[t])
@@ -317,7 +401,7 @@ func (s *space) large(c *mc.Ctx) {
 				d(fmt.Sprintf("ristretto ExpandedMultiscalarMulVartime(static=%d, dynamic=%d)", len(ss), len(ds))), cas)
 			w.Eval(cl(fmt.Sprintf("ristretto.ExpandedMultiscalarMulVartime(static=%d)", len(ss))), true)
 		}
-		w.Sample(map[string]interface{}{"op": "multiscalar (all routines)", "n": n, "scalars": v.name})
+		w.Sample(map[string]interface{}{"op": "multiscalar (all routines)", "n": n, "scalars": name})
 	})
 	for _, n := range sizes {
 		if c.Rep.NViolations > 0 {
